@@ -4,7 +4,7 @@
 seeds=${1:-"11 12 13"}; props=${2:-"C01 C12 C14 C16"}
 out=$(mktemp -d /dev/shm/verif_soak_XXXX)
 for s in $seeds; do for p in $props; do
-  VERIF_SEED=$s VERIF_OUT=$out /venv/bin/python run_check.py $p --tier thorough > $out/$p-$s.log 2>&1; rc=$?
+  VERIF_SEED=$s VERIF_OUT=$out nice -n 19 /venv/bin/python run_check.py $p --tier thorough > $out/$p-$s.log 2>&1; rc=$?
   echo "seed=$s prop=$p exit=$rc $(grep -E '^runs=' $out/$p-$s.log | cut -c1-120)"
   grep -E "VIOLATION|HARNESS" $out/$p-$s.log | cut -c1-300
   if [ $rc -ne 0 ]; then mkdir -p soak_failures; cp -r $out/replays soak_failures/ 2>/dev/null; cp $out/$p-$s.log soak_failures/; fi
